@@ -80,13 +80,27 @@ class RecordingTransport(_Recording, Transport):
     async def disconnect(self) -> None:
         self.disconnected += 1
 
+    wait_when_empty = False  # True: a read on an empty inbox waits for the next arrival (a quiet network) instead of ending the case
+    _arrival = None
+
     async def read(self) -> str:
-        if not self.inbox:
-            raise Drained
+        while not self.inbox:
+            if not self.wait_when_empty:
+                raise Drained
+            if self._arrival is None:
+                self._arrival = asyncio.Event()
+            self._arrival.clear()
+            await self._arrival.wait()
         item = self.inbox.pop(0)
         if isinstance(item, BaseException):
             raise item  # an injected read failure (line noise, a lost link)
         return item
+
+    def deliver(self, line: str) -> None:
+        """A line arrives: whoever waits in read() is woken (in the order they started waiting)."""
+        self.inbox.append(line)
+        if self._arrival is not None:
+            self._arrival.set()
 
     async def write(self, decoded_message: str) -> None:
         await self._record_write(decoded_message)
@@ -421,6 +435,57 @@ async def rx(gateway: Gateway, line: str) -> tuple[str, Any]:
             pass
         transport.inbox.clear()  # type: ignore[attr-defined]
     return "ok", msg
+
+
+async def rx_after_idle(gateway: Gateway, line: str, idle_timeouts: int = 1) -> tuple[str, Any]:
+    """The network is quiet: the application's wait for the next message times out (once or more), it starts listening again,
+    and then the line arrives while that listener is waiting. Result as for `rx`; a line nobody yields or rejects is "drained"."""
+    transport = gateway.transport
+    if not isinstance(transport, RecordingTransport):
+        return await rx(gateway, line)
+    transport.wait_when_empty = True
+    agen = None
+    try:
+        for _ in range(idle_timeouts):
+            idle = gateway.listen()
+            try:
+                await asyncio.wait_for(idle.__anext__(), 0.002)
+            except asyncio.TimeoutError:
+                pass
+            except AIOMySensorsError:
+                pass
+            finally:
+                try:
+                    await idle.aclose()
+                except Exception:  # noqa: BLE001
+                    pass
+        agen = gateway.listen()
+        task = asyncio.ensure_future(agen.__anext__())
+        for _ in range(3):
+            await asyncio.sleep(0)
+        transport.deliver(line)
+        try:
+            # (a handful of loop iterations are needed; 2 s of real time only run out when nothing ever comes)
+            msg = await asyncio.wait_for(task, 2.0)
+        except asyncio.TimeoutError:
+            return "drained", None
+        except AIOMySensorsError as err:
+            return "liberr", err
+        except Exception as err:  # noqa: BLE001
+            return "leak", err
+        return "ok", msg
+    finally:
+        transport.wait_when_empty = False
+        if transport._arrival is not None:
+            transport._arrival.set()  # (release whoever is still waiting: they find nothing and end)
+        if agen is not None:
+            try:
+                await agen.aclose()
+            except Exception:  # noqa: BLE001
+                pass
+        for _ in range(3):
+            await asyncio.sleep(0)
+        transport.inbox.clear()
 
 
 class Listener:
